@@ -85,6 +85,47 @@ def history(ctx: Ctx, n_ops: int, hid: int) -> dict:
     return {"id": hid, "kind": "fresh", "events": events}
 
 
+def _child_protects(args: tuple) -> list[bytes]:
+    import dpapi_ng
+
+    root, rkid, h, n, sid = args
+    cache = dpapi_ng.KeyCache()
+    cache.load_key(root, rkid, kdf_parameters=kdf_parameters(h))
+    return [bytes(dpapi_ng.ncrypt_protect_secret(b"same plaintext", sid, root_key_identifier=rkid, cache=cache)) for _ in range(n)]
+
+
+def fork_history(ctx: Ctx, hid: int) -> dict:
+    """Pre-fork worker model: the parent protects, then forks workers that protect too; randomness must not be shared
+    through state inherited at fork()."""
+    import multiprocessing as mp
+
+    import dpapi_ng
+
+    rng = ctx.rng
+    h = "SHA512"
+    rkid = uuid.UUID(bytes=rng.randbytes(16))
+    root = rng.randbytes(64)
+    cache = dpapi_ng.KeyCache()
+    cache.load_key(root, rkid, kdf_parameters=kdf_parameters(h))
+    blobs = [bytes(dpapi_ng.ncrypt_protect_secret(b"same plaintext", SIDS[0], root_key_identifier=rkid, cache=cache)) for _ in range(2)]
+    with mp.get_context("fork").Pool(3) as pool:
+        for lst in pool.map(_child_protects, [(root, rkid, h, 3, SIDS[0])] * 3):
+            blobs += lst
+    blobs += [bytes(dpapi_ng.ncrypt_protect_secret(b"same plaintext", SIDS[0], root_key_identifier=rkid, cache=cache))]
+    intern = {"cek": Interner(), "nonce": Interner(), "keyinfo": Interner(), "ct": Interner()}
+    dc = refdc.DC()
+    dc.add_root_key(rkid, refdc.RootKeyInfo(root, h, "DH"))
+    events = []
+    for blob in blobs:
+        p = blobref.parse_blob(blob)
+        kid = p["kid"]
+        l2 = dc.keyset(kid["rkid"], sdref.target_sd(p["sid"]), kid["l0"]).l2(kid["l1"], kid["l2"])
+        cek = keywrap.aes_key_unwrap(blobref.reference_kek(h, l2, kid, "DH", 512), p["enc_cek"])
+        events.append({"ev": "protect", "cek": intern["cek"](cek), "nonce": intern["nonce"](p["nonce"]), "keyinfo": intern["keyinfo"](kid["key_info"]),
+                       "ct": intern["ct"](p["ct"]), "pt": 0, "mode": "cache-forked", "ok": True})
+    return {"id": hid, "kind": "fresh", "events": events}
+
+
 def run(ctx: Ctx) -> int:
     refdc.ensure_ntlm_users()
     cfg = ctx.rundir / "fresh.cfg"
@@ -98,6 +139,9 @@ def run(ctx: Ctx) -> int:
     for i in range(nh):
         rows.append(history(ctx, nops, i))
         ctx.distinct(("history", i))
+    for j in range(ctx.pick(2, 10)):
+        rows.append(fork_history(ctx, nh + j))
+        ctx.distinct(("fork-history", j))
     nprot = sum(1 for r_ in rows for e in r_["events"] if e["ev"] == "protect")
     ctx.count(nprot)
     ctx.cov["protect_calls"] = nprot
